@@ -134,6 +134,40 @@ def carrier_trace_records(embs, seed, start_id):
                 ctx[rid] = {"cls": cls.__name__, "obj": f"{a} with {f.name}=<function>", "res": f"{b} with {f.name}=<function>: {what}", "what": what, "opname": "__eq__", "carrier": f.name,
                             "function_pair": what}
                 rid += 1
+    # a non-default non-SymPy attribute together with a still FOLDED SymPy argument: unfolding the whole (deep doit) must equal
+    # unfolding the argument first and the outer expression afterwards - the attribute must survive whatever rebuilding doit performs
+    from ampform.dynamics.phasespace import BreakupMomentumSquared
+
+    for emb in embs:
+        cls = emb.cls
+        if not dataclasses.is_dataclass(cls) or cls is BreakupMomentumSquared:
+            continue
+        for f in dataclasses.fields(cls):
+            default = f.default
+            if f.metadata.get("sympify", True) or not inspect.isclass(default) or not dataclasses.is_dataclass(default):
+                continue
+            alts = emb.attr_values.get(f.name, [])
+            if len(alts) < 2:
+                continue
+            try:
+                with warnings.catch_warnings():
+                    warnings.simplefilter("ignore")
+                    probe = emb.build([x, y][: emb.ar], tuple("a" for _ in range(emb.na)), tuple(range(emb.ar)))
+                    attrs = {g.name: getattr(probe, g.name) for g in dataclasses.fields(cls) if not g.metadata.get("sympify", True)}
+                    attrs[f.name] = alts[1]
+                    folded = BreakupMomentumSquared(x, sp.Symbol("k_a"), sp.Symbol("k_b")) + 4   # a folded expression as first argument
+                    args = [folded] + list(probe.args[1:])
+                    obj = cls(*args, **attrs)
+                    deep = obj.doit()
+                    staged = cls(*[a.doit() for a in args], **attrs).doit()
+                    d = 0.0 if deep == staged else _numeric_equal(deep, staged, rng)
+            except Exception as ex:  # noqa: BLE001
+                skipped.append(f"{cls.__name__}.{f.name} (folded argument): {type(ex).__name__}: {str(ex)[:80]}")
+                continue
+            recs.append({"id": rid, "op": "commute", "t": T.to_json(_proj(obj, cls, f.name)), "eq": int(d < 1e-9), "diff_q": int(min(d * 1e9, 2e9))})
+            ctx[rid] = {"cls": cls.__name__, "obj": f"{obj} with {f.name}={getattr(alts[1], '__name__', alts[1])}", "what": f"doit() vs doit() after unfolding the arguments first: relative difference {d:.3g}",
+                        "opname": "doit", "carrier": f.name, "folded_argument": 1}
+            rid += 1
     # keyword construction in another order than the declaration: the same instance as positional construction
     for emb in embs:
         cls = emb.cls
